@@ -97,6 +97,11 @@ def rand_history(rng, maxlen, maxdepth):
     info = {"pop_empty": 0, "maxdepth": 0}
 
     def cl():
+        if rng.random() < 0.25:
+            # a long list over one or two names: the same name several times, the list as long as or longer than the number of
+            # defined variables (seed C11-w7-m2: a push fast path "the copy list covers every variable" compared lengths only)
+            base = rng.sample(names, rng.randint(1, 2))
+            return [rng.choice(base) for _ in range(rng.randint(2, 7))]
         k = rng.choice([0, 1, 1, 2, 2, 3])
         return [rng.choice(names + ["zz"]) for _ in range(k)]
     for _ in range(n):
